@@ -427,6 +427,11 @@ func launchGuard(c *an.Ctx, s *sched, rule string) {
 				if !an.InModule(site.Parent()) || (s.gateCall != nil && site == ssa.CallInstruction(s.gateCall)) {
 					continue
 				}
+				// (the per-stage loop may live in a function of its own, with the launch in yet another one: the call
+				// the loop makes for its current stage is the launch decision)
+				if site.Parent() == s.loopFn && s.inner != nil && s.inner.Blocks[site.Block()] && len(c.P.CallSitesOf(s.gate)) == 1 {
+					continue
+				}
 				c.Bad(rule, an.Short(site.Parent())+":gate-call", site.Pos(), "%s calls the dependency gate %s outside the launch path: the gate cancels the stage it is asked about, so asking about a stage that is not Waiting (skipped, done, running) can overwrite its status and cancel stages that depend on it", an.Short(site.Parent()), an.Short(s.gate))
 			}
 		}
@@ -525,7 +530,7 @@ func publishAfterRun(c *an.Ctx, s *sched, rule string) {
 			}
 			r := c.P.Reach(c.P.Callees(&g.Call), func(e an.CallEdge) bool { return an.InModule(e.Callee) })
 			for h := range r {
-				if len(an.CallsIn(h, fnRunnerRun)) > 0 || h == s.schedule {
+				if len(an.CallsIn(h, fnRunnerRun)) > 0 || s.isSchedule(h) {
 					c.Bad(rule, an.Short(f)+":go", g.Pos(), "the task is started asynchronously (go statement between the stage goroutine and Runner.Run): the status would be published before the task finished")
 					asyncBad = true
 					return
@@ -554,7 +559,7 @@ func publishAfterRun(c *an.Ctx, s *sched, rule string) {
 		}
 		if ci, ok := in.(ssa.CallInstruction); ok {
 			for _, callee := range c.P.Callees(ci.Common()) {
-				if callee == s.runStage || callee == s.schedule {
+				if callee == s.runStage || s.isSchedule(callee) {
 					return "run"
 				}
 			}
@@ -612,7 +617,7 @@ func publishAfterRun(c *an.Ctx, s *sched, rule string) {
 	}
 	// the nested Schedule call is synchronous and its result is what the runner caller returns
 	if s.runStage != nil {
-		for _, ci := range an.CallsIn(s.runStage, "(*pkg/scheduler.Scheduler).Schedule") {
+		for _, ci := range s.scheduleCallsIn(s.runStage) {
 			if _, isGo := ci.(*ssa.Go); isGo {
 				c.Bad(rule, an.Short(s.runStage)+":nested", ci.Pos(), "nested pipeline is scheduled asynchronously")
 			} else {
@@ -731,6 +736,7 @@ func edgeWiring(c *an.Ctx, s *sched, rule string) {
 		field string
 	}
 	var updates []upd
+	roles := resolveEdgeRoles(p)
 	for _, fn := range p.Funcs {
 		an.EachInstr(fn, func(in ssa.Instruction) {
 			mu, ok := in.(*ssa.MapUpdate)
@@ -738,8 +744,14 @@ func edgeWiring(c *an.Ctx, s *sched, rule string) {
 				return
 			}
 			ap := an.AccessPath(mu.Map)
-			if an.TypeIs(ap.Base.Type(), "pkg/scheduler", "ExecutionGraph") && (ap.LastField() == "from" || ap.LastField() == "to") {
-				updates = append(updates, upd{fn, mu, ap.LastField()})
+			if ap.Base != nil && an.TypeIs(ap.Base.Type(), "pkg/scheduler", "ExecutionGraph") && roles.isEdgeMapField(ap.LastField()) {
+				seen := map[string]bool{}
+				for _, u := range roles.edgeUpdates(mu) {
+					if u.role != "" && !seen[u.role] {
+						seen[u.role] = true
+						updates = append(updates, upd{fn, mu, u.role})
+					}
+				}
 			}
 		})
 		// whole-map replacement outside a constructor
@@ -753,7 +765,7 @@ func edgeWiring(c *an.Ctx, s *sched, rule string) {
 				return
 			}
 			name := an.AccessPath(fa).LastField()
-			if name != "from" && name != "to" {
+			if !roles.isEdgeMapField(name) {
 				return
 			}
 			if a, ok := fa.X.(*ssa.Alloc); ok && a.Heap {
@@ -786,12 +798,13 @@ func edgeWiring(c *an.Ctx, s *sched, rule string) {
 		}
 		ok := true
 		for _, ret := range an.Returns(f) {
-			lk, isLk := an.ContentOf(an.RetVal(ret, 0)).(*ssa.Lookup) // (a defensive copy of the list counts as the list)
-			if !isLk || an.AccessPath(lk.X).LastField() != acc.field || !an.SameValue(lk.Index, f.Params[1]) {
+			// (a defensive copy of the list counts as the list)
+			loc, key, isRead := edgeListRead(an.ContentOf(an.RetVal(ret, 0)))
+			if !isRead || loc != roles.loc[acc.field] || !an.SameValue(key, f.Params[1]) {
 				ok = false
 			}
 		}
-		c.Check(ok, rule, an.Short(f)+":accessor", f.Pos(), acc.name+" returns "+acc.field+"[name] unmodified", acc.name+" does not return "+acc.field+"[name] unmodified")
+		c.Check(ok, rule, an.Short(f)+":accessor", f.Pos(), acc.name+" returns "+acc.field+"[name] unmodified", acc.name+" does not return the list kept for its argument in the graph's "+acc.field+" relation, unmodified")
 	}
 }
 
